@@ -637,7 +637,14 @@ class SC:
     def __le__(s, o): return s._cmp(o, True, False)
 
     def __mod__(s, o):
-        raise Inconclusive('% on a symbolic value (needs a harness stub)')
+        o2 = SC.lift(o)
+        if o2 is not NotImplemented and s.p.is_const() and o2.p.is_const():
+            a = s.p.const_value(); b = o2.p.const_value()
+            if a.im == 0 and b.im == 0 and b.re != 0:
+                return SC.lift(a.re % b.re)
+        h = CTX.extra.get('mod_stub')
+        if h is None: raise Inconclusive('% on a symbolic value (needs a harness stub)')
+        return h(s, o)
 
     def __complex__(s): raise TypeError('realisation of a symbolic complex value')
     def __float__(s): raise TypeError('realisation of a symbolic value')
